@@ -19,6 +19,7 @@ import (
 	"verif/internal/lite"
 
 	"github.com/alicebob/sqlittle"
+	sdb "github.com/alicebob/sqlittle/db"
 )
 
 func init() { Subcommands["peer"] = peerMain }
@@ -28,6 +29,7 @@ func peerMain(args []string) int {
 	out := bufio.NewWriter(os.Stdout)
 	var l *lite.DB
 	var h *sqlittle.DB
+	var held *sdb.Database
 	reply := func(format string, a ...interface{}) {
 		s := fmt.Sprintf(format, a...)
 		s = strings.ReplaceAll(s, "\n", "\\n")
@@ -123,6 +125,27 @@ func peerMain(args []string) int {
 			if h != nil {
 				h.Close()
 				h = nil
+			}
+			reply("ok")
+		// a low level sqlittle handle of this process that keeps its read lock until told to let go
+		case "lhold":
+			d, err := sdb.OpenFile(arg)
+			if err != nil {
+				reply("err %v", err)
+				continue
+			}
+			if err := d.RLock(); err != nil {
+				d.Close()
+				reply("err %v", err)
+				continue
+			}
+			held = d
+			reply("ok")
+		case "lrelease":
+			if held != nil {
+				held.RUnlock()
+				held.Close()
+				held = nil
 			}
 			reply("ok")
 		case "lselect":
